@@ -54,7 +54,8 @@ BOUNDS = {
               "leaves, multisets of pairwise distinct sizes), families graded and onepair, sorted plate order; "
               "everywhere else (and n=5) the default answer plus the fully reversed triple order",
               "smallest_shape_product": "means {-1,0,2}^3 x variances {1e-3,1,1e3}^3 x distances {0,1,3}^3 = 19683",
-              "value_families": 6, "max_combos": "C(n,3) and 5000 (both >= C(n,3))", "distance_factor": 1.0},
+              "value_families": 6, "max_combos": "C(n,3) and 5000 (both >= C(n,3))", "distance_factor": 1.0,
+              "sparse_large_probe": "one call with 20 plates (1..400 experiments) x 16 posterior samples (560 triples), all four entry points"},
     "thorough": {"n_thetas": [3, 4, 5, 6, 7], "plate_sizes": [1, 2, 3, 4], "max_plates": 4, "plate_orders": "all k!",
                  "relabellings": "all n! for n<=5; identity, reversal, rotation, one swap for n=6,7",
                  "experiment_orders": "full product over plates when <= 576, otherwise every order of one plate at a "
@@ -62,7 +63,7 @@ BOUNDS = {
                  "max_chunk": [1, 2, 3, 50], "rng_tree": "as quick, and the scorer 2-call tree on every multiset with <= 3 plates; "
                  "n>=5: default + fully reversed triple order",
                  "smallest_shape_product": "19683 cases x 2 wrappers", "value_families": 6,
-                 "max_combos": "C(n,3) and 5000", "distance_factor": 1.0},
+                 "max_combos": "C(n,3) and 5000", "distance_factor": 1.0, "sparse_large_probe": "as quick"},
 }
 ASSUMPTIONS = [
     "reference estimator: for every triple a<b<c, log(D_ab+D_bc+D_ac) + sum over experiments of "
@@ -343,7 +344,7 @@ def check_case(case, col, ch, expected=None, dims=()):
     col.transitions += 1
     sizes_called = [len(case["means"][p][0]) for p in order]
     ragged = "ragged" if len(set(sizes_called)) > 1 else "dense"
-    rec = dict(case)
+    rec = dict(case) if "__item__" not in case else {"__item__": case["__item__"], "entry": entry}  # big workloads: replay by work item
     try:
         got, keys_ok = execute(case, ch)
     except Exception as exc:  # noqa: BLE001
@@ -427,6 +428,7 @@ def plan(tier, seed):
     for fam in ("large-hi", "large-lo", "large-mixed"):
         for n in (3, 4):
             items.append({"kind": "large", "n": n, "family": fam})
+    items.append({"kind": "bigbatch", "n": 16, "family": "graded"})
     for n in tp["ns"][:3]:
         items.append({"kind": "scorer-reuse", "n": n})
     for n in tp["ns"]:
@@ -515,6 +517,18 @@ def run_item(item, col, tier):
                     case = base.case(entry, order=order)
                     check_case(case, col, Chooser(), base.expected(entry), _dims(base, order) | {"large-plate"})
         col.states += 16
+        return
+    if kind == "bigbatch":
+        # ONE sparse probe far outside the enumerated sizes: 20 plates (one of 400 experiments) x 560 triples in one call, so
+        # that any workload-dependent path (blocking, spilling) of the kernel is taken at least once; each plate is still
+        # judged against the scalar estimator on that plate alone.  Not part of the exhaustive claim (see BOUNDS).
+        sizes = [400, 1, 2, 3, 5, 8, 13, 21, 34, 55, 89, 96, 2, 3, 1, 7, 11, 4, 6, 9]
+        base = Base(item["n"], item["family"], sizes)
+        for entry in ENTRIES:
+            case = base.case(entry, max_chunk=50)
+            case["__item__"] = item
+            check_case(case, col, Chooser(), base.expected(entry), _dims(base, case["order"]) | {"big-workload"})
+            col.states += 1
         return
     if kind == "scorer-reuse":
         # one scorer object, two calls with different distance matrices of the same size: the second call is judged
